@@ -15,7 +15,7 @@ vars == <<idx, phase>>
 
 Init == idx \in 1 .. Len(Progs) /\ phase = "load"
 
-Predict(i) == LET c == RunK(InitCfg(Progs[i].ast), Fuel) IN
+Predict(i) == LET c == RunK(InitCfg(Progs[i].ast, {Progs[i].dev[k] : k \in 1 .. Len(Progs[i].dev)}), Fuel) IN
               [id |-> Progs[i].id] @@ Outcome(c)
 
 Next == /\ phase = "load"
